@@ -20,9 +20,12 @@ def _stack():
     return _local.s
 
 
+from vt.sqlclass import Classifier
+_CLS = Classifier()
+
+
 def _is_write(stmt):
-    w = stmt.strip().split(None, 1)[0].upper() if stmt.strip() else ""
-    return w not in ("SELECT", "PRAGMA", "EXPLAIN")
+    return _CLS.is_write(stmt)
 
 
 def _tracer(stmt):
